@@ -55,6 +55,15 @@ CHECKS = {
  "C11": ("reference-evaluator runtime monitor for authorization (multi-reading evaluator of rule order / whole-string match / default deny and of service selection)",
          "Generated policies (regex grammar incl. partial anchors, alternations, (?m), invalid patterns; user/group layering; services with conditions and optional values) and requests aimed at the policies' own patterns are sent to the reference server; grants must be justified by a permit as first applying rule under some reading; canonical session requests must return exactly the expected value set and add/replace status.",
          "regexp trusted; command path judged in the grant direction only; non-canonical session requests unjudged", "3/C11"),
+ "C09": ("differential transcript runtime monitor (each session's replies when multiplexed / concurrent vs when run alone; byte-for-byte)",
+         "Sets of 2-8 session scripts are run multiplexed under generated interleavings (all interleavings of 2 scripts x <= 3 packets enumerated), on concurrent connections with identical session ids, and alone; every transcript must equal the solo transcript. Thorough adds -race.",
+         "replies are deterministic functions of the session; coverage floor counts interleavings with two sessions open at once", "3/C09"),
+ "C13": ("reference-evaluator runtime monitor for admission (netip-based evaluator vs Loader.Get and vs the full server's connection event log and AAA outcomes)",
+         "Generated ordered scopes with overlapping IPv4/IPv6 prefixes, deny/allow lists and scoped users; boundary addresses of every prefix in 4-byte, mapped and IPv6 encodings; refused connections must show only RemoteAddr+Close, served ones must work under the expected scope's key and user set only.",
+         "IPv4(-mapped) vs ::/0-like prefixes unjudged; valid CIDRs only", "3/C13"),
+ "C16": ("differential runtime monitor over load histories (long-lived loader object vs fresh loader per document; snapshots of published values; end-to-end lookups/AAA vs fresh server)",
+         "Histories of 2-6 YAML/JSON documents (edits dropping keys, shrinking/reordering lists, removing per-user fields; invalid documents interleaved) are fed to one loader object; outcome and published value must equal a fresh loader's, earlier published values must not change, failed loads publish nothing; sampled histories are replayed through Loader+server and compared with a fresh server.",
+         "nil == empty; fsnotify watcher not driven (it calls Load on the same object)", "3/C16"),
 }
 
 NA_REASON = "check not built yet in this round (work in progress; see DESIGN.md section 3 for the planned monitor)"
